@@ -17,7 +17,7 @@ class P(Prop):
     MAKE_TARGETS = ["theories/Props/C05.vo", "theories/Check/Check_C04.vo"]
     CHECK_REQUIRE = ("From Coq Require Import QArith List Bool.\nFrom Feems Require Import Base.Num Base.Pchip Model.Component "
                      "Model.Shaft Model.Hybrid Check.Check_C06 Check.Check_C04.\nOpen Scope Q_scope.")
-    RULE = ("hybrid plants: 1-2 switchboards (closed tie) with 1-3 equally sharing sources and 1-2 consumers, one PTI/PTO (serial "
+    RULE = ("hybrid plants: 1-4 switchboards (closed chain of ties) with 1-3 equally sharing sources and 1-2 consumers, one PTI/PTO (serial "
             "drive of 1-2 stages with 1-4 point curves) in given-power mode on any switchboard, shared with a shaft line of 1-2 "
             "main engines and a propeller; series of 2-6 steps mixing PTI (positive electrical power), PTO (negative) and full-PTI "
             "steps, or none; compared per step: electrical and shaft power of the PTI/PTO after the combined balance, every engine "
@@ -30,8 +30,8 @@ class P(Prop):
     def gen(self, rng, tier, override=None):
         out = []
         for _ in range(self.n_cases(tier, override)):
-            nswb = rng.choice([1, 1, 2])
-            swbs = [1, 2][:nswb]
+            nswb = rng.choice([1, 1, 2, 3, 4])       # closed chain of ties: one bus however many switchboards
+            swbs = [1, 2, 3, 4][:nswb]
             n = rng.randint(2, 6)
             comps = []
             for s in swbs:
@@ -61,7 +61,7 @@ class P(Prop):
                 machines[1]["e0"] = machines[0]["e0"]
             rng.shuffle(comps)
             cons = {c["name"]: [Fraction(rng.randint(0, 16), 16) * 1000 for _ in range(n)] for c in comps if c["cls"] == "load"}
-            out.append({"elec": {"comps": comps, "breakers": [[1, 2]] if nswb == 2 else [], "swbs": swbs}, "mech": mech,
+            out.append({"elec": {"comps": comps, "breakers": [[k, k + 1] for k in range(1, nswb)], "swbs": swbs}, "mech": mech,
                         "n": n, "machines": machines, "share_array": share, "cons": cons})
         return out
 
@@ -81,7 +81,7 @@ class P(Prop):
         hyb = HybridPropulsionSystem("hyb", esys, msys)
         esys.set_time_interval(np.full(n, 60.0), IntegrationMethod.sum_with_time)
         if case["elec"]["breakers"]:
-            esys.set_bus_tie_status_all(np.ones((n, 1), dtype=bool))
+            esys.set_bus_tie_status_all(np.ones((n, len(case["elec"]["breakers"])), dtype=bool))
         shared = np.array([float(x) for x in case["machines"][0]["e0"]]) if case["share_array"] else None
         for d, o in zip(case["elec"]["comps"], eobjs):
             k = pg.kind_of(d["cls"])
